@@ -125,9 +125,16 @@ func (s *Store) ReadLogWithIdempotencyKey(ctx context.Context, key string) (*led
 }
 
 func (s *Store) GetTransactionByReference(ctx context.Context, ref string) (*ledger.ExpandedTransaction, error) {
-	for _, l := range s.D.snapshot() {
+	logs := s.D.snapshot()
+	for _, l := range logs {
 		if tx := txOf(l); tx != nil && tx.Reference == ref {
-			return &ledger.ExpandedTransaction{Transaction: *tx}, nil
+			cp := *tx
+			for _, l2 := range logs {
+				if p, ok := l2.Data.(ledger.RevertedTransactionLogPayload); ok && p.RevertedTransactionID.Cmp(cp.ID) == 0 {
+					cp.Reverted = true // as the SQL projection reports it
+				}
+			}
+			return &ledger.ExpandedTransaction{Transaction: cp}, nil
 		}
 	}
 	return nil, sqlutils.ErrNotFound
